@@ -29,8 +29,11 @@ func Index(json any) any {
 	classIndex := make(map[string][]string)
 	nodeIndex := make(types.ObjectMap)
 
-	g := json.(types.ObjectMap)["@graph"]
-	nodes := g.([]any)
+	// a document without nodes flattens to an empty list instead of a map holding a @graph
+	var nodes []any
+	if graph, ok := json.(types.ObjectMap); ok {
+		nodes, _ = graph["@graph"].([]any)
+	}
 
 	for _, nn := range nodes {
 		n := nn.(types.ObjectMap)
